@@ -964,7 +964,7 @@ async fn run_h1_inner(sc: H1Scenario, tape: Tape, narr: bool) -> H1Out {
                     if due(st.last_grant_ms + d as u64, &mut next_due) {
                         acts.push((Act::Grant(i), sc.sched.w_other));
                     }
-                } else {
+                } else if !cs.writes_blocked_after_grants {
                     acts.push((Act::Grant(i), sc.sched.w_other));
                 }
             }
